@@ -2,6 +2,7 @@ import RcVerif.Model.Inst
 import RcVerif.Model.CDecode
 import RcVerif.Spec.KeySlot
 import RcVerif.Model.SimInst
+import RcVerif.Model.Route
 /-
   Line-protocol driver: one request per input line, one canonical answer per
   output line. Core-only, compiled as `rcdriver`.
@@ -112,8 +113,31 @@ def simLine (rest : String) : String :=
     | _, _ => "bad-op cfg"
   | _ => "bad-op shape"
 
+/-! ### route: `route noslave=<0/1> | <topo> | <type> <slot> <draw>` -/
+def routeLine (rest : String) : String :=
+  match rest.splitOn "|" with
+  | [cfgS, topoS, qS] =>
+    let noslave := (cfgS.splitOn "noslave=1").length > 1
+    match parseTopo topoS, (qS.splitOn " ").filter (· ≠ "") with
+    | some (pools, table), [ty, slot, draw] =>
+      match ty.toNat?, slot.toNat?, draw.toNat? with
+      | some ty, some slot, some draw =>
+        match Sim.slotOwner table slot with
+        | none => "unowned"
+        | some rs =>
+          let hasPool := fun a => pools.any (fun p => p.1 = a)
+          let rs' : Route.RSet := { master := rs.master, slaves := rs.slaves }
+          let (a, sl) := Route.route goTables noslave hasPool ty rs' draw
+          let cands := if Route.masterOnly goTables noslave ty then [] else Route.candidates hasPool rs'
+          s!"addr={hexOrDash a} slave={if sl then 1 else 0} cands={String.intercalate "," (cands.map hexOrDash)}"
+      | _, _, _ => "bad-op"
+    | _, _ => "bad-op"
+  | _ => "bad-op"
+
 def stepLine (line : String) : String :=
+  let line := line.trimAscii.toString
   if line.startsWith "sim " then simLine (line.drop 4).toString else
+  if line.startsWith "route " then routeLine (line.drop 6).toString else
   match (line.trimAscii.toString.splitOn " ").filter (· ≠ "") with
   | ["hash", k] =>
     match fromHex k with
